@@ -6,19 +6,87 @@
            [dsep_oracle g] = C08's model of DAG.is_dconnected (proved equal to the path definition in C08).
    Spec:   C12/Spec.v (Markov equivalence class by enumeration, CPDAG, consistent extension).
 
-   NOT PROVED (full-strength statements, kept visible):
-     forall g vr maxc vars sord, wf_graph g -> acyclic g -> Permutation vars (nodes g) ->
-       Permutation sord (nodes g) -> max_degree g <= maxc ->
-       skeleton_exactb g (build_skeleton vr (dsep_oracle g) maxc vars sord) = true
-       /\ cpdag_exactb g vars (pc_pdag vr (dsep_oracle g) maxc vars sord) = true
-     (exactness of the level-wise skeleton search, and soundness + completeness of the three
-     propagation rules, for every number of nodes and every order).  Only the finite-domain versions
-     below (<= 4 labelled nodes, the listed orders) are machine-checked; 5 nodes and random 6-8 node
-     truths are covered by the correspondence run, not by a theorem.
-     *)
+   NOT PROVED (full-strength statement, kept visible):
+     forall g vr maxc vars sord, wf_graph g -> acyclic g -> NoDup vars -> (forall v, In v vars <-> In v (nodes g)) ->
+       (forall y, In y (nodes g) -> indeg g y <= maxc) ->
+       cpdag_exactb g vars (pc_pdag vr (dsep_oracle g) maxc vars sord) = true
+     (It was false before fix ad4d524: C12_rule4_witness_6.)
+   What is proved of it for all n: the skeleton phase (C12_skeleton_exact), the v-structure phase
+   (C12_vstructure_phase_sound, C12_skeleton_then_vstructures) and the SOUNDNESS half of the propagation rules
+   (C12_pdag_sound_partial: the PDAG contains the CPDAG; whatever it directs is compelled and directed as in every
+   member).  MISSING: completeness of the three propagation rules (Meek 1995: when no rule applies every remaining
+   undirected edge is reversible, i.e. In (u,v) A -> exists a member with u -> v).  That half is covered by the
+   finite-domain theorems (<= 4 labelled nodes, the listed orders), by 5 nodes exhaustively and by random 6-8 node
+   truths against the enumerated CPDAG in the correspondence run.  PDAG.to_dag is proved correct and complete for
+   every extendable graph, and the DAG return type is reduced to PDAG exactness (C12_dag_member_if_cpdag_exact). *)
 From Coq Require Import List Bool Arith.
-From PV Require Import Base.Reach Base.Graph C08.Model C12.Model C12.Spec C12.FiniteDefs C12.Finite C12.ToDag C12.VPhase.
+From PV Require Import Base.Reach Base.Graph C08.Model C08.Spec C12.Model C12.Spec C12.FiniteDefs C12.Finite C12.ToDag C12.VPhase C12.Skeleton C12.DorTarsi C12.SpecBridge C12.Member C12.ModelFix C12.Refuted6 C12.Orient.
 Import ListNotations.
+
+(* [U] skeleton phase, every DAG, every variant (orig / stable / parallel), every node order [vars] (a duplicate-free
+   listing of the nodes), every set order [sord] (any list), every max_cond_vars >= the maximum IN-degree of the
+   truth (the bound the level loop needs: the separating set found is the parent set of the end point that is not
+   an ancestor of the other; max degree is a sufficient bound, C12_skeleton_exact_maxdegree):
+   the level loop terminates within its fuel, and
+     (a)+(b) the remaining adjacency is exactly the truth's skeleton (no true edge removed, every non-adjacent pair
+             removed before the loop exits),
+     (c)     every stored separating set belongs to a non-adjacent pair, contains neither end point and d-separates
+             them (C08's oracle, and the path definition of C08.Spec), and every non-adjacent pair has one. *)
+Theorem C12_skeleton_exact : forall g vars sord vr maxc,
+  wf_graph g -> acyclic g -> NoDup vars -> (forall v, In v vars <-> In v (nodes g)) ->
+  (forall y, In y (nodes g) -> indeg g y <= maxc) ->
+  exists E seps,
+    build_skeleton vr (dsep_oracle g) maxc vars sord = Some (E, seps) /\
+    skeleton_ok g vars E seps /\
+    (forall u v, uadj E u v = true <-> adjacent g u v) /\
+    (forall u v cs, In u vars -> lookup seps u v = Some cs ->
+       ~ adjacent g u v /\ ~ In u cs /\ ~ In v cs /\ dsep_oracle g u v cs = true /\ ~ dconnected g cs u v) /\
+    (forall u v, In u vars -> In v vars -> u <> v -> ~ adjacent g u v -> lookup seps u v <> None).
+Proof. exact skeleton_exact. Qed.
+Print Assumptions C12_skeleton_exact.
+
+Theorem C12_skeleton_exact_maxdegree : forall g vars sord vr maxc,
+  wf_graph g -> acyclic g -> NoDup vars -> (forall v, In v vars <-> In v (nodes g)) ->
+  (forall y, In y (nodes g) -> degree g y <= maxc) ->
+  exists E seps,
+    build_skeleton vr (dsep_oracle g) maxc vars sord = Some (E, seps) /\ skeleton_ok g vars E seps.
+Proof. exact skeleton_exact_maxdegree. Qed.
+Print Assumptions C12_skeleton_exact_maxdegree.
+
+(* [U] skeleton phase + phase 1 of skeleton_to_pdag: for every DAG the oriented colliders are exactly the truth's
+   unshielded colliders (with the separating sets the skeleton phase actually stores) *)
+Theorem C12_skeleton_then_vstructures : forall g vars sord vr maxc,
+  wf_graph g -> acyclic g -> NoDup vars -> (forall v, In v vars <-> In v (nodes g)) ->
+  (forall y, In y (nodes g) -> indeg g y <= maxc) ->
+  exists E seps,
+    build_skeleton vr (dsep_oracle g) maxc vars sord = Some (E, seps) /\
+    forall A, vphase vars E seps (to_directed E) = Some A ->
+      forall z x, In (z, x) A <-> In (z, x) (to_directed E) /\ ~ exists y, ucollider g x z y.
+Proof. exact skeleton_then_vphase. Qed.
+Print Assumptions C12_skeleton_then_vstructures.
+
+(* not vacuous *)
+Theorem C12_skeleton_exact_nonvacuous :
+  let g := {| nodes := [0; 1; 2]; edges := [(0, 2); (1, 2)] |} in
+  wf_graph g /\ acyclic g /\ NoDup [0; 1; 2] /\ (forall y, In y (nodes g) -> indeg g y <= 2) /\
+  build_skeleton Orig (dsep_oracle g) 2 [0; 1; 2] [0; 1; 2] = Some ([(0, 2); (1, 2)], [((0, 1), [])]).
+Proof. exact skeleton_exact_nonvacuous. Qed.
+Print Assumptions C12_skeleton_exact_nonvacuous.
+
+(* [U] _partial (soundness half of PDAG exactness), every DAG, variant, order, max_cond_vars >= max in-degree: the
+   PDAG returned by PC keeps every arc of every member of the truth's Markov equivalence class, lives on the truth's
+   skeleton, and every edge it directs is directed that way in EVERY member (so: no spurious v-structure, no
+   reversible edge directed, nothing directed against the truth, no directed cycle).
+   Missing for exactness: every compelled edge does get directed (completeness of the rules). *)
+Theorem C12_pdag_sound_partial : forall g vars sord vr maxc A,
+  wf_graph g -> acyclic g -> NoDup vars -> (forall v, In v vars <-> In v (nodes g)) ->
+  (forall y, In y (nodes g) -> indeg g y <= maxc) ->
+  pc_pdag vr (dsep_oracle g) maxc vars sord = Some A ->
+  (forall h, markov_equiv g h -> forall u v, In (u, v) (edges h) -> In (u, v) A) /\
+  (forall u v, (In (u, v) A \/ In (v, u) A) <-> adjacent g u v) /\
+  (forall u v, In (u, v) A -> ~ In (v, u) A -> forall h, markov_equiv g h -> In (u, v) (edges h)).
+Proof. exact pc_pdag_sound. Qed.
+Print Assumptions C12_pdag_sound_partial.
 
 (* [F 4] every DAG on <= 4 labelled nodes, every variant, every node order, set order ascending/descending,
    every max_cond_vars from the maximum degree up: the skeleton is the truth's, every stored separating set
@@ -37,6 +105,24 @@ Theorem C12_cpdag_exact_upto4 : forall n g vr vars sord,
   cpdag_exactb g vars (pc_pdag vr (dsep_oracle g) n vars sord) = true.
 Proof. exact cpdag_exact_upto4. Qed.
 Print Assumptions C12_cpdag_exact_upto4.
+
+(* regression witness of the repaired defect ad4d524 (6 nodes; beyond the bound of the finite-domain theorems):
+   with rule 4 as it was (no "X, Y non-adjacent" test) the exact skeleton is turned into a PDAG in which the compelled
+   true edge 1 -> 2 comes out as 2 -> 1; as coded now the result is the CPDAG for the three variants.
+   Truth: 0->1, 0->2, 0->3, 1->2, 3->1, 4->3, 5->0, 5->1, 5->2, 5->3, identity orders. *)
+Theorem C12_rule4_witness_6 :
+  exists g vars sord A,
+    length (nodes g) = 6 /\ acyclicb g = true /\ In (1, 2) (edges g) /\
+    skeleton_exactb g (build_skeleton Stable (dsep_oracle g) 6 vars sord) = true /\
+    pc_pdag_prefix Stable (dsep_oracle g) 6 vars sord = Some A /\
+    cpdag_exactb g vars (Some A) = false /\
+    harc A 2 1 = true /\ harc A 1 2 = false /\
+    harc (cpdag_arcs g) 1 2 = true /\ harc (cpdag_arcs g) 2 1 = false /\
+    cpdag_exactb g vars (pc_pdag Orig (dsep_oracle g) 6 vars sord) = true /\
+    cpdag_exactb g vars (pc_pdag Stable (dsep_oracle g) 6 vars sord) = true /\
+    cpdag_exactb g vars (pc_pdag Parallel (dsep_oracle g) 6 vars sord) = true.
+Proof. exact rule4_witness_6. Qed.
+Print Assumptions C12_rule4_witness_6.
 
 (* [F 4] return_type dag: the sink-removal loop needs no fallback and returns an acyclic member of the class,
    for every node order of the PDAG object *)
@@ -62,15 +148,63 @@ Print Assumptions C12_to_dag_one_way_test_witness_5.
 (* [U] PDAG.to_dag: for EVERY partially directed graph (arcs over ns, no self loop), every node order and arc
    order, whenever the sink-removal loop finishes without the fallback the result is a consistent extension:
    acyclic, same skeleton, every directed edge kept, no new v-structure.  (sym = true is the code; PDAG.to_dag = to_dag true.)
-   NOT PROVED: completeness (Dor & Tarsi: on every extendable PDAG the loop with the both-ways test never needs
-   the fallback); it is computed for the CPDAGs of all DAGs on <= 4 nodes (C12_dag_member_upto4 includes
-   "no fallback") and checked against brute-force extendability in the correspondence run. *)
+   Completeness is C12_to_dag_complete below. *)
 Theorem C12_to_dag_invariants : forall sym ns A D,
   arcs_in ns A -> irrefl A ->
   to_dag sym ns A = Some (D, false) ->
   consistent_extension ns A D.
 Proof. exact to_dag_invariants. Qed.
 Print Assumptions C12_to_dag_invariants.
+
+(* [U] Dor & Tarsi completeness of PDAG.to_dag as coded now (both-ways clique test, fix 6ec15dd): for EVERY
+   extendable partially directed graph (some consistent extension exists), every node order and arc order, the
+   sink-removal loop never takes the arbitrary-orientation fallback, and its result is a consistent extension. *)
+Theorem C12_to_dag_complete : forall ns A,
+  NoDup ns -> arcs_in ns A -> irrefl A ->
+  (exists D, consistent_extension ns A D) ->
+  exists D', to_dag true ns A = Some (D', false) /\ consistent_extension ns A D'.
+Proof. exact to_dag_complete. Qed.
+Print Assumptions C12_to_dag_complete.
+
+(* not vacuous; the same PDAG makes the test as it was before 6ec15dd fall back *)
+Theorem C12_to_dag_complete_nonvacuous :
+  let ns := [0; 1; 2] in
+  let A := [(0, 1); (0, 2); (1, 2); (2, 1)] in
+  NoDup ns /\ arcs_in ns A /\ irrefl A /\ consistent_extension ns A [(0, 1); (0, 2); (1, 2)] /\
+  to_dag false ns A = Some ([(0, 1); (0, 2); (1, 2)], true) /\
+  to_dag true ns A = Some ([(0, 1); (0, 2); (2, 1)], false).
+Proof. exact to_dag_complete_nonvacuous. Qed.
+Print Assumptions C12_to_dag_complete_nonvacuous.
+
+(* [U] the DAG return type, every DAG g: if the PDAG handed to to_dag is the CPDAG of g's class (Spec.is_cpdag_of: arc
+   present iff some member of the class has it), then for every node order and arc order PDAG.to_dag takes no
+   fallback and returns an acyclic member of the class (a consistent extension of the CPDAG). *)
+Theorem C12_dag_member_of_cpdag : forall g A ns,
+  wf_graph g -> acyclic g -> is_cpdag_of g A ->
+  NoDup ns -> arcs_in ns A ->
+  exists D, to_dag true ns A = Some (D, false) /\ consistent_extension ns A D /\
+            markov_equiv g {| nodes := nodes g; edges := D |}.
+Proof. intros g A ns Hw Ha HA. exact (dag_member_of_cpdag g Hw Ha A HA ns). Qed.
+Print Assumptions C12_dag_member_of_cpdag.
+
+(* [U] the two forms of the specification agree: the executable CPDAG (enumeration of the orientations of the
+   skeleton; used by the finite-domain theorems and by the harness) is the CPDAG in the Prop sense, where the class
+   ranges over ALL Markov-equivalent digraphs on the same nodes *)
+Theorem C12_cpdag_enumeration_is_cpdag : forall g, wf_graph g -> acyclic g -> is_cpdag_of g (cpdag_arcs g).
+Proof. exact cpdag_arcs_spec. Qed.
+Print Assumptions C12_cpdag_enumeration_is_cpdag.
+
+(* [U] return_type="dag" for every number of nodes, reduced to the PDAG phase: whenever PC's PDAG equals the CPDAG
+   of the truth's class, the DAG returned is a member of the class, without fallback, for every node order of the
+   PDAG object.  (With C12_cpdag_exact_upto4 this re-derives C12_dag_member_upto4; for n > 4 the premise is what the
+   propagation rules still owe.) *)
+Theorem C12_dag_member_if_cpdag_exact : forall g vr indep maxc vars sord pord,
+  wf_graph g -> acyclic g -> NoDup pord -> (forall v, In v (nodes g) -> In v pord) ->
+  cpdag_exactb g vars (pc_pdag vr indep maxc vars sord) = true ->
+  exists D, pc_dag vr indep maxc vars sord pord = Some (D, false) /\
+            markov_equiv g {| nodes := nodes g; edges := D |}.
+Proof. exact dag_member_if_cpdag_exact. Qed.
+Print Assumptions C12_dag_member_if_cpdag_exact.
 
 (* [U] v-structure phase of skeleton_to_pdag: given the truth's skeleton and correct separating sets (what the
    skeleton phase delivers with an exact oracle), for EVERY DAG and node order the arcs removed by phase 1 are
